@@ -107,14 +107,24 @@ def one_case(task):
         e2e.write_pkg(pkggen.render(pkg), top / "src")
         # one in four runs starts at the directory ABOVE the package (root adjustment, API file named after that directory)
         src = top / "src" / pkg["root"]
-        if rng.random() < 0.25:
+        k = rng.random()
+        excluded = [p for p in pkg["packages"] if p[-1] in ("test", "tests", "docs")]
+        if k < 0.25:
             src = src.parent
+        elif k < 0.37 and excluded:
+            # the source directory is itself a test/docs directory: "No files found to analyse." unless the flag is set
+            src = top / "src" / "/".join(rng.choice(excluded))
         try:
             inp, res, obs = run_observed(_impl(), src, top / "out", top, o)
         except Exception as e:  # noqa: BLE001
             return {"seed": seed, "error": f"{type(e).__name__}: {e}", "tb": traceback.format_exc()[-1500:]}
         res.pop("api", None)
-        return {"seed": seed, "style": style, "options": o, "inp": inp, "impl": res, "obs": obs, "above": src.name != pkg["root"].split("/")[-1],
+        second = None
+        if res["outcome"] == "ok" and rng.random() < 0.34:
+            # C16: the CLI a second time into the same, now populated, output directory
+            r2 = e2e.run_tool(_impl(), src, top / "out", **o)
+            second = {"outcome": r2["outcome"], "files": r2["files"]}
+        return {"seed": seed, "second": second, "style": style, "options": o, "inp": inp, "impl": res, "obs": obs, "above": src == (top / "src" / pkg["root"]).parent,
                 "n_decls": sum(len(m["functions"]) + len(m["classes"]) + len(m["enums"]) for m in pkg["modules"])}
     finally:
         shutil.rmtree(top, ignore_errors=True)
@@ -184,6 +194,8 @@ def compare(ctx, r, m) -> None:
         ctx.disagree("S-P/warnings", inp, wm[:4], wi[:4])
         return
     rep.bump("sp_outcome", "whole_tool_byte_exact")
+    if r.get("second") is not None:
+        r["_first_files"] = dict(impl["files"])
 
 
 def run(ctx) -> None:
@@ -229,3 +241,31 @@ def run(ctx) -> None:
         for r, m in zip(chunk, outs):
             rep.disagreements_checked += 1
             compare(ctx, r, m)
+    # second runs: the model's write operations for a run into the populated directory, applied on top of the first
+    # run's files, must give the files the implementation leaves after ITS second run (and C16: the same files as before)
+    again = [r for r in good if r.get("_first_files") is not None]
+    outs = driver_batch([{**r["inp"], "preexisting": sorted(p for p in r["_first_files"] if p.endswith(".sdsstub"))} for r in again])
+    for r, m in zip(again, outs):
+        rep.disagreements_checked += 1
+        inp = {"stage": "S-P", "seed": r["seed"], "style": r["style"], "options": r["options"], "run": "second"}
+        sec = r["second"]
+        if sec["outcome"] != "ok" or not m.get("ok"):
+            if (sec["outcome"] == "ok") != bool(m.get("ok")):
+                ctx.disagree("S-P/second-run-outcome", inp, m.get("err", "ok"), sec["outcome"])
+            if sec["outcome"] != "ok":
+                ctx.oracle_failure("C16", f"a second run of the tool into the same output directory ended with {sec['outcome']}", inp)
+            continue
+        tree = dict(r["_first_files"])
+        tree[m["api_file"]] = m["api_text"]
+        for op in m["ops"]:
+            tree[op["path"]] = op["text"] if op["mode"] == "w" else tree.get(op["path"], "") + op["text"]
+        if tree != sec["files"]:
+            bad = [p for p in sorted(set(tree) | set(sec["files"])) if tree.get(p) != sec["files"].get(p)]
+            ctx.disagree("S-P/second-run-files", {**inp, "paths": bad[:4]}, {p: tree.get(p) for p in bad[:1]},
+                         {p: sec["files"].get(p) for p in bad[:1]})
+        else:
+            rep.bump("sp_outcome", "second_run_byte_exact")
+        if sec["files"] != r["_first_files"]:
+            bad = [p for p in sorted(set(sec["files"]) | set(r["_first_files"])) if sec["files"].get(p) != r["_first_files"].get(p)]
+            ctx.oracle_failure("C16", f"a second run of the whole tool into the same output directory changed {bad[:3]}",
+                               {**inp, "paths": bad[:5]})
